@@ -35,21 +35,21 @@ SPECS['C01'] = dict(
 
 SPECS['C02'] = dict(
     jobs=decode_jobs('asan'), level='exploration', technique='differential testing against an independent reference decoder over exhaustive/enumerated/mutated inputs',
-    rule='Same input campaigns as C01. Oracle: cbor_load returns an item iff refcbor.classify accepts; on accept the tree observed through public getters equals the reference AST node by node (type, width, value, float bits with NaN==NaN, tag, flavour, chunk boundaries, order, fill), every refcount is 1, read == encoded length, no node or buffer lies in the input block, and the tree is unchanged after the input block is overwritten and freed. Non-trivial = >=2 complete heads, or a single-edit neighbour of an accepted item.',
+    rule='Same input campaigns as C01. Oracle: cbor_load returns an item iff refcbor.classify accepts; on accept the tree observed through public getters equals the reference AST node by node (type, width, value, float bits with NaN==NaN, tag, flavour, chunk boundaries, order, fill), every refcount is 1, read == encoded length, no node or buffer lies in the input block, and the tree is unchanged after the input block is overwritten and freed. Non-trivial = >=2 complete heads, or a single-edit neighbour of an accepted item. Every judged input is also decoded in a receive buffer at a fixed address that was used just before for a different, incomplete input (a string head declaring 2^20 bytes, the own initial byte with an all-ones argument, the input cut short): the answer must equal the answer on the fresh block (no state kept between calls).',
     assumptions=COMMON_ASSUME + ['the harness allocator refuses single requests above its cap; which head a refusal belongs to is observed by decoding growing prefixes and handed to the reference (never predicted from declared counts or slot sizes); counts >= 2^56 admit MEMERROR on the spot as well as carrying on; cases hitting the total cap are skipped and counted'],
     level_text='Exploration by differential testing: complete for every byte string up to 3 (4) bytes and every enumerated item / single-edit neighbour; elsewhere a sample. The reference decoder is independent of libcbor.',
     level_note='The reference model is trusted (validated by 0 disagreements on the exhaustive campaigns after the D1..D5 fixes); observation is through public getters only.')
 
 SPECS['C05'] = dict(
     jobs=decode_jobs('asan'), level='exploration', technique='differential testing of (error code, position) against the reference classifier incl. all proper prefixes; two-pattern sentinel for unwritten fields',
-    rule='Same input campaigns as C01; only inputs the reference rejects are judged. Oracle: NULL; (code, position) is in the reference admissible set (two members only for the documented late detection inside chunked strings); every proper prefix of an enumerated item (E3 truncations) gets NOTENOUGHDATA/NODATA, never a hard error; read/position/code all written (result pre-filled with 0xAA.. and 0x55..); no block left allocated. Non-trivial = rejected input with >=1 complete head.',
+    rule='Same input campaigns as C01; only inputs the reference rejects are judged. Oracle: NULL; (code, position) is in the reference admissible set (two members only for the documented late detection inside chunked strings); every proper prefix of an enumerated item (E3 truncations) gets NOTENOUGHDATA/NODATA, never a hard error; read/position/code all written (result pre-filled with 0xAA.. and 0x55..); no block left allocated. Non-trivial = rejected input with >=1 complete head. Every judged input is also decoded in a receive buffer at a fixed address that was used just before for a different, incomplete input; code, position and read must equal those on the fresh block.',
     assumptions=COMMON_ASSUME,
     level_text='Exploration by differential testing of the failure verdict: complete for every byte string up to 3 (4) bytes, all proper prefixes of all enumerated items and all single-edit corruptions; elsewhere a sample.',
     level_note='The reference classifier (DESIGN.md Appendix A) is trusted; where the property allows late detection the oracle admits both verdicts, so it cannot tell which of the two a change picks.')
 
 SPECS['C14'] = dict(
     jobs=decode_jobs('asan', gens=('pair',)), level='exploration', technique='metamorphic relation load(x||y) == load(x) over enumerated x and y; sequence splitting',
-    rule='PAIR: x = every E2 item (<=2 nodes quick, <=3 thorough) and every E2p item, decoded alone in an exactly |x|-byte block and again followed by y in {each of the 256 bytes, 14 small items, garbage, a 2^64-1 string head}; trees (observed via getters) and read must agree. SEQ: concatenations of 2..6 items split by repeated cbor_load at offset += read must give the same trees as the items alone and end exactly at the buffer end. Non-trivial = y non-empty and |x|>=2 (PAIR) / >=2 items (SEQ).',
+    rule='PAIR: x = every E2 item (<=2 nodes quick, <=3 thorough) and every E2p item, decoded alone in an exactly |x|-byte block and again followed by y in {each of the 256 bytes, 14 small items, garbage, a 2^64-1 string head}; trees (observed via getters) and read must agree. SEQ: concatenations of 2..6 items split by repeated cbor_load at offset += read must give the same trees as the items alone and end exactly at the buffer end. Non-trivial = y non-empty and |x|>=2 (PAIR) / >=2 items (SEQ). PAIR cases additionally decode x, x||y and x again through one receive buffer at a fixed address with a past (a different incomplete input tried there before); each answer must equal the one on a fresh block.',
     assumptions=COMMON_ASSUME[:1] + COMMON_ASSUME[2:] + ['the reference classifier is consulted only to tell whether x is a complete item when x alone fails to decode (then x||y must fail too)'],
     level_text='Exploration by a metamorphic relation (the reference model only guards one corner): complete over the enumerated x and the listed y; sequences are sampled.',
     level_note='x ranges over enumerated well-formed items only; y over single bytes, small items and a few garbage strings, not all strings.')
@@ -65,21 +65,21 @@ STREAM_ASSUME = [COMMON_ASSUME[0], 'the reference tokeniser (src/ref/refcbor.hpp
 
 SPECS['C08'] = dict(
     jobs=stream_jobs_for(('head',)), level='exploration', technique='exhaustive/boundary enumeration of heads x buffer lengths against a reference tokeniser, with a recording callback table',
-    rule='HEAD campaign: every initial byte (256) x every buffer length 0..head length+1 x argument values (all one- and two-byte arguments exhaustively; boundary and seeded values for four/eight-byte ones incl. declared lengths up to 2^64-1); definite strings also with payload one short/exact/one extra. Oracle per call: FINISHED with exactly one callback (right slot, arguments, payload pointer = buffer+head, inside the buffer) and read = head(+payload) length; or NEDATA with no callback, read 0, n < required <= pending length (128-bit); or ERROR with no callback, read 0 for reserved/unsupported bytes; zero allocator calls; identical result when repeated and after unrelated calls; FINISHED independent of bytes beyond read (exact-size prefix, and flipped suffix). Non-trivial = buffer of >=1 byte whose head takes an argument or payload; distinct by buffer bytes.',
+    rule='HEAD campaign: every initial byte (256) x every buffer length 0..head length+1 x argument values (all one- and two-byte arguments exhaustively; boundary and seeded values for four/eight-byte ones incl. declared lengths up to 2^64-1); definite strings also with payload one short/exact/one extra. Oracle per call: FINISHED with exactly one callback (right slot, arguments, payload pointer = buffer+head, inside the buffer) and read = head(+payload) length; or NEDATA with no callback, read 0, n < required <= pending length (128-bit); or ERROR with no callback, read 0 for reserved/unsupported bytes; zero allocator calls; identical result when repeated and after unrelated calls; FINISHED independent of bytes beyond read (exact-size prefix, and flipped suffix). Non-trivial = buffer of >=1 byte whose head takes an argument or payload; distinct by buffer bytes. Statelessness: the call is repeated; the empty buffer is polled between calls (NEDATA/0/1, no callback); the same bytes are decoded in a buffer whose address is reused from case to case after six different calls on that buffer with the same initial byte (cut head, all-ones argument, one byte fewer, last byte changed, one byte more, itself) and must be answered as on the fresh copy. --replay repeats a passing case up to 8192 times in one process.',
     assumptions=STREAM_ASSUME,
     level_text='Exploration: exhaustive per initial byte for immediate, one- and two-byte arguments; boundary grid plus seeded values for wider arguments.',
     level_note='Trusts the reference tokeniser; "allocates nothing" is observed through the installed allocator (libc bypass is the business of C13).')
 
 SPECS['C09'] = dict(
     jobs=stream_jobs_for(('frag',)), level='exploration', technique='model-based testing of the buffering client loop: event sequence vs. independent tokenisation over generated (stream, fragmentation) pairs',
-    rule='FRAG campaign: streams = concatenations of 1..4 enumerated items, raw sequences of 1..6 random heads, and specials (huge declared lengths, reserved bytes, truncated tails); fragmentations = one-shot, every single cut point, byte-at-a-time, 8 seeded multi-cut lists per stream. The client of the property statement is simulated (each call on an exactly-sized copy of the buffered bytes). Oracle: events equal the reference tokenisation (slot, arguments, payload bytes, order); every wait has buffered < required <= what the pending item occupies; progress on FINISHED; final state consistent with the tokenisation (all delivered / ERROR at the reserved byte / waiting on the incomplete tail). Non-trivial = some cut strictly inside a head or payload; distinct by (stream, cuts).',
+    rule='FRAG campaign: streams = concatenations of 1..4 enumerated items, raw sequences of 1..6 random heads, and specials (huge declared lengths, reserved bytes, truncated tails); fragmentations = one-shot, every single cut point, byte-at-a-time, 8 seeded multi-cut lists per stream. The client of the property statement is simulated (each call on an exactly-sized copy of the buffered bytes). Oracle: events equal the reference tokenisation (slot, arguments, payload bytes, order); every wait has buffered < required <= what the pending item occupies; progress on FINISHED; final state consistent with the tokenisation (all delivered / ERROR at the reserved byte / waiting on the incomplete tail). Non-trivial = some cut strictly inside a head or payload; distinct by (stream, cuts). The whole client additionally runs twice in a row through one receive buffer at a fixed address (unconsumed bytes moved to the front), after that buffer had been used for an abandoned different item with the same initial byte; a client with nothing buffered polls with the empty buffer (NEDATA, required 1).',
     assumptions=STREAM_ASSUME,
     level_text='Exploration: all single cuts and byte-wise delivery of each generated stream, sampled multi-cut fragmentations; streams are sampled.',
     level_note='Trusts the reference tokeniser; the client loop is the one described in the property, implemented in the driver.')
 
 SPECS['C10'] = dict(
     jobs=stream_jobs, level='exploration', technique='exhaustive small domains + boundary/seeded sweeps: encoder output vs. reference head, then round-trip through the streaming decoder',
-    rule='ENC campaign over every cbor_encode_* function: all 8- and 16-bit values, all ctrl values except 24..31 (no RFC encoding), bool/null/undef/break/indefinite starts, every half pattern; 32/64-bit and width-agnostic encoders on 0..70000, all 2^k-1/2^k/2^k+1, width boundaries and seeded values of random bit length; single/double exponent x boundary mantissas + seeded. Oracle: bytes == RFC 8949 head from the reference (NaN canonical), return == length, bytes beyond untouched, decoder fires the matching slot with identical value and consumes exactly the bytes written (unsupported simple values must give ERROR; string heads are decoded with and without payload). Non-trivial = head longer than one byte; distinct by (encoder, value).',
+    rule='ENC campaign over every cbor_encode_* function: all 8- and 16-bit values, all ctrl values except 24..31 (no RFC encoding), bool/null/undef/break/indefinite starts, every half pattern; 32/64-bit and width-agnostic encoders on 0..70000, all 2^k-1/2^k/2^k+1, width boundaries and seeded values of random bit length; single/double exponent x boundary mantissas + seeded. Oracle: bytes == RFC 8949 head from the reference (NaN canonical), return == length, bytes beyond untouched, decoder fires the matching slot with identical value and consumes exactly the bytes written (unsupported simple values must give ERROR; string heads are decoded with and without payload). Non-trivial = head longer than one byte; distinct by (encoder, value). Every encoder call is repeated with a really mapped buffer whose size is 2^31-1 .. 2^32+9 (does not fit an int / a uint32_t): same return value and bytes.',
     assumptions=STREAM_ASSUME,
     level_text='Exploration: exhaustive for 8/16-bit domains, constants and all half patterns; boundary + seeded elsewhere.',
     level_note='cbor_encode_half is judged only on NaN and half-representable floats (its documented domain for exactness; totality on other floats is C15).')
@@ -93,14 +93,14 @@ TREE_ASSUME = [COMMON_ASSUME[0], 'the reference encoder (src/ref/refcbor.hpp enc
 
 SPECS['C03'] = dict(
     jobs=tree_jobs, level='exploration', technique='round-trip + differential against a reference encoder over decoder-made and API-constructed trees (enumerated and seeded construction programs)',
-    rule='Trees: DEC = cbor_load of every E2 (<=2 nodes quick / <=3 thorough) and E2p encoding; PROG = byte-coded construction programs through every cbor_new_*/cbor_build_* (all 1- and 2-byte programs exhaustively, seeded programs of 2..49 bytes); DEEP = API-built nests up to the decoder limit. Oracle: the tree observed through getters equals what the construction calls are documented to build; cbor_serialize_alloc bytes == reference RFC 8949 encoding of the observed tree (stored widths, shortest heads, break-terminated indefinites, canonical NaN); cbor_load of those bytes consumes all of them and gives an equal tree (NaN==NaN); serializing that tree gives the identical bytes; nothing left allocated. Non-trivial = >=3 nodes, or an indefinite item / NaN / width-boundary value / shared node; distinct by construction program or input bytes.',
+    rule='Trees: DEC = cbor_load of every E2 (<=2 nodes quick / <=3 thorough) and E2p encoding; PROG = byte-coded construction programs through every cbor_new_*/cbor_build_* (all 1- and 2-byte programs exhaustively, seeded programs of 2..49 bytes); DEEP = API-built nests up to the decoder limit. Oracle: the tree observed through getters equals what the construction calls are documented to build; cbor_serialize_alloc bytes == reference RFC 8949 encoding of the observed tree (stored widths, shortest heads, break-terminated indefinites, canonical NaN); cbor_load of those bytes consumes all of them and gives an equal tree (NaN==NaN); serializing that tree gives the identical bytes; nothing left allocated. Non-trivial = >=3 nodes, or an indefinite item / NaN / width-boundary value / shared node; distinct by construction program or input bytes. PROG trees include chunks that receive their payload after being attached and simple values 0..19 / 32..255 (serialized per RFC; no load-back, libcbor\'s decoder does not accept them); two short-buffer cbor_serialize calls (one byte short, half) precede every judged serialization.',
     assumptions=TREE_ASSUME,
     level_text='Exploration: exhaustive over the enumerated encodings and all 1- and 2-byte construction programs; seeded sample of longer programs.',
     level_note='Trusts the reference encoder; API-built trees are limited to what treeprog.hpp can express (no cycles, no unset ints/floats, simple values 20..23 only — the preconditions stated in the property).')
 
 SPECS['C07'] = dict(
     jobs=tree_jobs, level='exploration', technique='exhaustive buffer-size sweep (n = 0..size+2, exact heap blocks with sentinel fill under ASan) over generated trees; encoder x value x n sweep',
-    rule='For every tree of the C03 campaigns: every n in 0..size+2 with an exactly n-byte heap block filled with 0xC5: cbor_serialize returns cbor_serialized_size iff n >= size else 0, bytes [size,n) stay 0xC5, ASan guards everything past n; cbor_serialize_alloc returns size, sets *buffer_size = size (or accepts NULL), the block it obtained is exactly size bytes and holds the same bytes. ENCN: every cbor_encode_* x boundary/seeded values x n in 0..10: returns 0 with the buffer untouched, or the head length with only those bytes written and equal to the reference head. Cases are trees (each sweeps all n; counters.tree_n_pairs is the number of (tree,n) pairs) and (encoder,value) pairs. Non-trivial = tree with >=2 nodes, an indefinite item or size >= 3.',
+    rule='For every tree of the C03 campaigns: every n in 0..size+2 with an exactly n-byte heap block filled with 0xC5: cbor_serialize returns cbor_serialized_size iff n >= size else 0, bytes [size,n) stay 0xC5, ASan guards everything past n; cbor_serialize_alloc returns size, sets *buffer_size = size (or accepts NULL), the block it obtained is exactly size bytes and holds the same bytes. ENCN: every cbor_encode_* x boundary/seeded values x n in 0..10: returns 0 with the buffer untouched, or the head length with only those bytes written and equal to the reference head. Cases are trees (each sweeps all n; counters.tree_n_pairs is the number of (tree,n) pairs) and (encoder,value) pairs. Non-trivial = tree with >=2 nodes, an indefinite item or size >= 3. cbor_serialize and every encoder are additionally called with a really mapped buffer of 2^31-1 .. 2^32+9 bytes.',
     assumptions=TREE_ASSUME,
     level_text='Exploration: for each generated tree the buffer-size dimension is exhaustive; trees and encoder values are enumerated/sampled as in C03.',
     level_note='Writes outside the first n bytes are detected by ASan red zones of the exactly-sized block.')
@@ -131,14 +131,14 @@ HIST_ASSUME = [COMMON_ASSUME[0], COMMON_ASSUME[2],
 
 SPECS['C04'] = dict(
     jobs=hist_jobs, level='exploration', technique='model-based (stateful) testing: generated API histories executed against a shadow ownership graph, refcounts and block liveness compared after every step',
-    rule='HISTX: every history of 1..4 (thorough 1..5) ops over a 38-op alphabet of concrete calls (new of each container kind, incref, decref, intermediate_decref, push, push(move), set, replace, get in/out of range, map_add incl. key==value and with cbor_move, add_chunk (also moved), tag_set on empty/occupied tags (also moved), tag_get, build_tag, copy, load, serialize, in-place set_handle trim, and fault_next: the following call runs with its k-th allocator request refused and the model follows the outcome the call reports) on a small pool; HISTR: seeded histories of 4..200 ops over the whole alphabet on 10 client slots with shared children and trees imported from cbor_load / cbor_copy / construction programs. After every step: cbor_refcount of every live item == client references + container edges of the model; every item the model says died in this step was released by the allocator and no item the model says is alive was (allocation serials, not addresses); ASan guards use-after-free/double free; at the end the client drops everything and the allocator live set must be empty. Non-trivial = some item had >=2 owners and a container was released while a child survived or vice versa; distinct by program.',
+    rule='HISTX: every history of 1..4 (thorough 1..5) ops over a 38-op alphabet of concrete calls (new of each container kind, incref, decref, intermediate_decref, push, push(move), set, replace, get in/out of range, map_add incl. key==value and with cbor_move, add_chunk (also moved), tag_set on empty/occupied tags (also moved), tag_get, build_tag, copy, load, serialize, in-place set_handle trim, and fault_next: the following call runs with its k-th allocator request refused and the model follows the outcome the call reports) on a small pool; HISTR: seeded histories of 4..200 ops over the whole alphabet on 10 client slots with shared children and trees imported from cbor_load / cbor_copy / construction programs. After every step: cbor_refcount of every live item == client references + container edges of the model; every item the model says died in this step was released by the allocator and no item the model says is alive was (allocation serials, not addresses); ASan guards use-after-free/double free; at the end the client drops everything and the allocator live set must be empty. Non-trivial = some item had >=2 owners and a container was released while a child survived or vice versa; distinct by program. The load op of a history additionally performs failing decodes (a proper prefix; an input one level deeper than CBOR_MAX_STACK_SIZE) whose allocations must be gone in the final balance.',
     assumptions=HIST_ASSUME,
     level_text='Exploration with a reference model: exhaustive for short histories over a fixed op alphabet, sampled for long ones.',
     level_note='The model follows the return values the implementation reports (a refused push takes no reference); whether those return values are right is C12.')
 
 SPECS['C12'] = dict(
     jobs=hist_jobs, level='exploration', technique='model-based testing against an abstract list: exhaustive short op sequences per container kind/capacity, growth runs with realloc counting, seeded histories',
-    rule='SEQ: arrays: every sequence of up to 5 (thorough 6) calls over {push, set(i), replace(i), get(i)}, i in {0, size-1, size, size+1, size+2}, for definite capacities 0..8 and the indefinite array, plus fill-then-probe runs; maps and chunked strings: every insertion count 0..capacity+12. After every call: return value, size, allocated >= size, fixed capacity of definite containers and element identity through the handle equal the abstract list; out-of-range get is NULL, out-of-range set/replace false. GROW: 1..4096 (thorough 65537) insertions into each indefinite kind, each growth step first attempted with the next allocator request refused and with every request refused (a refused insertion must leave size, handle and elements unchanged; a fallback that succeeds counts as an insertion), contents checked at checkpoints, allocator requests made inside the insertion calls (growth steps, by realloc or by allocate-copy-release) <= 8 + 4*ceil(log2(n+1)), capacity never shrinks. HISTR: seeded histories with the same predictions on many containers at once. Non-trivial = the sequence hits a boundary (full definite container, index >= size) or causes >=2 growths.',
+    rule='SEQ: arrays: every sequence of up to 5 (thorough 6) calls over {push, set(i), replace(i), get(i)}, i in {0, size-1, size, size+1, size+2}, for definite capacities 0..8 and the indefinite array, plus fill-then-probe runs; maps and chunked strings: every insertion count 0..capacity+12. After every call: return value, size, allocated >= size, fixed capacity of definite containers and element identity through the handle equal the abstract list; out-of-range get is NULL, out-of-range set/replace false. GROW: 1..4096 (thorough 65537) insertions into each indefinite kind, each growth step first attempted with the next allocator request refused and with every request refused (a refused insertion must leave size, handle and elements unchanged; a fallback that succeeds counts as an insertion), contents checked at checkpoints, allocator requests made inside the insertion calls (growth steps, by realloc or by allocate-copy-release) <= 8 + 4*ceil(log2(n+1)), capacity never shrinks. HISTR: seeded histories with the same predictions on many containers at once. Non-trivial = the sequence hits a boundary (full definite container, index >= size) or causes >=2 growths. GROW sizes: 1..4096 around every power of two, 10000, 32768, 65535, 65537, 131073 (thorough 1048577).',
     assumptions=HIST_ASSUME[:2] + ['the logarithmic bound is deliberately loose (doubling needs 1+ceil(log2 n) growth steps, factor 1.5 about 1.7*log2 n); a linear growth policy needs n/k steps and is caught for n >= 1000 at k = 16'],
     level_text='Exploration with a list model: exhaustive for short sequences per container configuration; growth clause checked at 29 (33) sizes per kind.',
     level_note='Index classes stand for indices (first, last, size, size+1, size+2); capacities above 8 are only covered by growth runs and seeded histories.')
@@ -157,7 +157,7 @@ def scalar_jobs(tier, seed):
 
 SPECS['C15'] = dict(
     jobs=scalar_jobs, level='exploration', technique='exhaustive / strided bit-pattern sweeps compared with an independent integer-arithmetic IEEE-754 conversion',
-    rule='HALF: all 65536 half patterns (exhaustive, both tiers). SINGLE: all 2^32 patterns in the thorough tier (optimised build) / every 211th pattern plus every exponent x 12 boundary mantissas in the quick tier. DOUBLE: every exponent x 14 boundary mantissas x both signs, every single-bit NaN payload, seeded 64-bit patterns. ENCHALF: floats (all 2^32 thorough, strided + boundary quick) handed to cbor_encode_half. Oracle per pattern: the streaming decoder fires exactly the float callback of that width with the bit-exact IEEE value (NaN: any NaN); cbor_load records the width and stores the same bits; cbor_float_get_float widens exactly; cbor_serialize, cbor_encode_* (on the decoded value and on the original pattern) and a built item reproduce the original bytes, NaN as 7E00 / 7FC00000 / 7FF8000000000000; cbor_encode_half returns 3 bytes F9xxxx for every float (UBSan on), exact for half-representable values, 0 and untouched buffer when too small. Non-trivial = zero, subnormal, infinity, NaN or a mantissa within 2 ulp of a binade boundary; distinct by (width, pattern).',
+    rule='HALF: all 65536 half patterns (exhaustive, both tiers). SINGLE: all 2^32 patterns in the thorough tier (optimised build) / every 211th pattern plus every exponent x 12 boundary mantissas in the quick tier. DOUBLE: every exponent x 14 boundary mantissas x both signs, every single-bit NaN payload, seeded 64-bit patterns. ENCHALF: floats (all 2^32 thorough, strided + boundary quick) handed to cbor_encode_half. Oracle per pattern: the streaming decoder fires exactly the float callback of that width with the bit-exact IEEE value (NaN: any NaN); cbor_load records the width and stores the same bits; cbor_float_get_float widens exactly; cbor_serialize, cbor_encode_* (on the decoded value and on the original pattern) and a built item reproduce the original bytes, NaN as 7E00 / 7FC00000 / 7FF8000000000000; cbor_encode_half returns 3 bytes F9xxxx for every float (UBSan on), exact for half-representable values, 0 and untouched buffer when too small. Non-trivial = zero, subnormal, infinity, NaN or a mantissa within 2 ulp of a binade boundary; distinct by (width, pattern). The float encoders are also called with a really mapped buffer of 2^31-1 .. 2^32+9 bytes.',
     assumptions=[COMMON_ASSUME[0], 'the reference conversions (half<->single, single->double by integer bit manipulation in src/ref/refcbor.hpp and drv_scalar.cpp) are correct', COMMON_ASSUME[2]],
     level_text='Exploration: halves exhaustive in both tiers, singles exhaustive in the thorough tier, doubles on a dense boundary grid plus seeded patterns.',
     level_note='The thorough exhaustive single sweep runs on an optimised build without sanitizers; the sanitizer build covers the strided sweep.')
@@ -193,7 +193,7 @@ def nest_jobs(tier, seed):
 
 SPECS['C19'] = dict(
     jobs=nest_jobs, level='exploration', technique='configuration sweep: library rebuilt for each limit L; generated nests at L-1..L+2 and 4L compared with the reference classifier parameterised by L; pipeline on a guard-paged bounded stack',
-    rule='For each L in {1,2,3,8,64,2048} the library is rebuilt with -DCBOR_MAX_STACK_SIZE=L (ASan+DEBUG flavour for the verdict oracle, -O0 flavour for the stack bound). Inputs: nests from 10 opener kinds (tags, definite and indefinite arrays, maps in key and value position, wide heads, second array slot), homogeneous and seeded mixes, at depths L-1, L, L+1, L+2, 4L (and 1, L/2), innermost an integer / chunked byte or text string (counts as a level) / empty array / empty indefinite map; truncations of them; sibling-heavy inputs whose nesting stays within L; for L<=8 every E2/E2p encoding. Oracle: accepted iff the reference with limit L accepts, tree equal and read exact; when the limit decides, NULL with MEMERROR positioned just past the head that would open level L+1; in the -O0 flavour load, describe, size, serialize, copy and release run on a thread with 256 KiB + 4 KiB*L of stack whose guard page must never be touched. Non-trivial = deepest nesting in {L-1..L+1} or the limit changes the verdict; distinct by input.',
+    rule='For each L in {1,2,3,8,64,2048} the library is rebuilt with -DCBOR_MAX_STACK_SIZE=L (ASan+DEBUG flavour for the verdict oracle, -O0 flavour for the stack bound). Inputs: nests from 10 opener kinds (tags, definite and indefinite arrays, maps in key and value position, wide heads, second array slot), homogeneous and seeded mixes, at depths L-1, L, L+1, L+2, 4L (and 1, L/2), innermost an integer / chunked byte or text string (counts as a level) / empty array / empty indefinite map; truncations of them; sibling-heavy inputs whose nesting stays within L; for L<=8 every E2/E2p encoding. Oracle: accepted iff the reference with limit L accepts, tree equal and read exact; when the limit decides, NULL with MEMERROR positioned just past the head that would open level L+1; in the -O0 flavour load, describe, size, serialize, copy and release run on a thread with 256 KiB + 4 KiB*L of stack whose guard page must never be touched. Non-trivial = deepest nesting in {L-1..L+1} or the limit changes the verdict; distinct by input. PAYLOAD: a byte string and a text string longer than the whole bounded stack, at the top level and three levels down (stack use must not follow payload size).',
     assumptions=[COMMON_ASSUME[1], COMMON_ASSUME[2], 'the stack allowance (256 KiB + 4 KiB per level) is about proportionality, not tightness: it is roughly ten times the per-level frame chain observed at -O0',
                  'limits other than the six listed are not built'],
     level_text='Exploration over six build configurations; per configuration the boundary depths are covered for every opener kind.',
@@ -216,7 +216,7 @@ def thread_jobs(tier, seed):
 
 SPECS['C17'] = dict(
     jobs=thread_jobs, level='exploration', technique='randomised multi-threaded workloads under ThreadSanitizer with per-thread result digests compared against single-threaded runs; concurrent phase first in fresh processes',
-    rule='Each case runs N in {2,3,4,8,16} threads released together by a barrier; every thread executes a seeded workload of 20..200 ops over the whole API on thread-private data (a fixed prelude touching every head kind, every float width, describe, the encoders; then cbor_load of well-formed and damaged inputs, construction programs, copy, serialize_alloc, fixed-buffer serialize, describe to a private memstream, streaming decode, low-level encoders, step-wise container growth, release). 48 (thorough 96) fresh processes, each starting with a concurrent phase before any single-threaded libcbor call so that first-use effects are contended; allocator configured once before threads start (C library malloc behind a stateless size cap / mutex-protected tracking allocator). Oracle: no ThreadSanitizer report (history_size=7, halt_on_error), and each thread digest (all bytes, codes, positions, describe text) equals the digest of the same workload run alone afterwards; the harness also interposes the libc functions that mutate process-wide state (setlocale with a locale argument, setenv/putenv/unsetenv, srand, chdir) and any call made while a workload runs is a violation. Non-trivial = >=2 threads each with >=10 allocating ops; distinct by (thread count, seed).',
+    rule='Each case runs N in {2,3,4,8,16} threads released together by a barrier; every thread executes a seeded workload of 20..200 ops over the whole API on thread-private data (a fixed prelude touching every head kind, every float width, describe, the encoders; then cbor_load of well-formed and damaged inputs, construction programs, copy, serialize_alloc, fixed-buffer serialize, describe to a private memstream, streaming decode, low-level encoders, step-wise container growth, release). 48 (thorough 96) fresh processes, each starting with a concurrent phase before any single-threaded libcbor call so that first-use effects are contended; allocator configured once before threads start (C library malloc behind a stateless size cap / mutex-protected tracking allocator). Oracle: no ThreadSanitizer report (history_size=7, halt_on_error), and each thread digest (all bytes, codes, positions, describe text) equals the digest of the same workload run alone afterwards; the harness also interposes the libc functions that mutate process-wide state (setlocale with a locale argument, setenv/putenv/unsetenv, srand, chdir) and any call made while a workload runs is a violation. Non-trivial = >=2 threads each with >=10 allocating ops; distinct by (thread count, seed). Workloads also stream-decode prefixes cut at a seeded length (0 included) and decode / serialize / copy / release items nested 258..305 levels deep; construction programs include simple values 0..19 / 32..255.',
     assumptions=[COMMON_ASSUME[2], 'ThreadSanitizer reports a race whenever two conflicting accesses without a happens-before edge both occur in a run, independent of their order; the harness does not own the scheduler, so shared state protected by atomics or locks is only visible through the result digests',
                  'TSAN_OPTIONS=history_size=7: with the default history a planted static-counter race was dropped in 4 of 6 probe runs'],
     level_text='Exploration of schedules by repeated randomised runs; detection of hidden mutable globals does not depend on the interleaving, detection of semantic interference does.',
